@@ -48,3 +48,11 @@ Fixpoint has_prefix (p l : list Z) : bool :=
   | x :: p', y :: l' => (x =? y) && has_prefix p' l'
   | _ :: _, [] => false
   end.
+
+(* ASCII text as a list of code points, for command and variable names *)
+From Coq Require Import String Ascii.
+Fixpoint zs (s : string) : list Z :=
+  match s with
+  | EmptyString => []
+  | String a r => Z.of_nat (nat_of_ascii a) :: zs r
+  end.
